@@ -84,9 +84,18 @@ func (o *out) violation(v any) {
 	o.nV++
 	n := o.nV
 	o.mu.Unlock()
-	if n <= 2000 {
+	if n <= vcap() {
 		o.line("V", v)
 	}
+}
+
+func vcap() int {
+	if s := os.Getenv("VERIF_VCAP"); s != "" {
+		var n int
+		fmt.Sscan(s, &n)
+		return n
+	}
+	return 100000
 }
 
 func (o *out) sample(v any) {
